@@ -307,23 +307,21 @@ def body_kdq(ctx, stream, N):
     a_s, a_l = ctx.real("alpha_strict"), ctx.real("alpha_loose")
     ctx.assume(land(a_s > 0, a_s <= a_l, a_l < 1))
     q = stubs.MonotoneQuantile("critical_value")
-    picks = stubs.Memo()
-
-    def choice(a, size=None, p=None):
-        return picks.get("choice", (list(a), size), lambda: np.array([list(a)[j % len(a)] for j in range(size)]))
-
-    shim = stubs.NpShim(quantile=lambda v, level, method=None: q([float(x) for x in v], level),
-                        random=type("R", (), {"choice": staticmethod(choice)}))
+    # bootstrap draws: the real numpy generator, re-seeded identically before the corresponding update of
+    # either detector (the "same random seed schedule" of the statement)
+    shim = stubs.NpShim(quantile=lambda v, level, method=None: q([float(x) for x in v], level))
     with rebind(M, np=shim):
         if stream:
-            mk = lambda a: M.KdqTreeStreaming(window_size=3, persistence=0.4, alpha=a, bootstrap_samples=3, count_ubound=1)  # noqa: E731
+            mk = lambda a: M.KdqTreeStreaming(window_size=3, persistence=0.4, alpha=a, bootstrap_samples=4, count_ubound=1)  # noqa: E731
             data = [b for b in _batches(N, 1, 2)]
         else:
-            mk = lambda a: M.KdqTreeBatch(alpha=a, bootstrap_samples=3, count_ubound=1)  # noqa: E731
+            mk = lambda a: M.KdqTreeBatch(alpha=a, bootstrap_samples=4, count_ubound=1)  # noqa: E731
             data = _batches(N, 4, 2)
         A, B = mk(a_s), mk(a_l)
-        for X in data:
+        for i, X in enumerate(data):
+            np.random.seed(1000 + i)
             A.update(X)
+            np.random.seed(1000 + i)
             B.update(X)
             dB = state_is(B.drift_state, "drift")
             ctx.prove(implies(state_is(A.drift_state, "drift"), dB), "strict-implies-loose")
